@@ -560,11 +560,14 @@ def run_machine(ctx: Ctx, machine_cls, max_examples: int, steps: int, salt: int 
             if type(e).__module__.startswith('hypothesis'):
                 raise HarnessError(f'hypothesis error: {e!r}') from e
             try:
+                ctx.in_machine = False  # outside Hypothesis here: AlreadyReported instead of reject()
                 ctx.fail_exc('unclassified', e)
             except Violation:
                 ctx.record_violation()
             except AlreadyReported:
                 return
+            finally:
+                ctx.in_machine = True
 
 
 # --------------------------------------------------------------------------
